@@ -65,6 +65,34 @@ bool valid_str(std::string const &s)
 std::string un(std::string const &s) { return s == "-" ? std::string{} : s; }
 std::string show_str(std::string const &s) { return s.empty() ? "-" : s; }
 
+// split_string(s, s[I]) / join_strings(pieces, pieces[I]): the delimiter is taken from the argument itself
+std::string split_at_line(char const K, std::size_t const I, std::string const &s)
+{
+  if (I >= s.size()) return skip;
+  std::vector<std::string> pieces;
+  if (K == 's')
+    pieces = fcppt::algorithm::split_string(s, s[I]);
+  else
+  {
+    std::vector<char> const in(s.begin(), s.end());
+    for (auto const &p : fcppt::algorithm::split_string(in, in[I]))
+      pieces.emplace_back(p.begin(), p.end());
+  }
+  std::string r{std::to_string(pieces.size()) + ":"};
+  for (std::size_t i = 0; i < pieces.size(); ++i)
+    r += (i ? "/" : "") + pieces[i];
+  return r;
+}
+
+std::string join_at_line(std::size_t const I, std::vector<std::string> const &pieces)
+{
+  if (I >= pieces.size()) return skip;
+  std::string const a{fcppt::algorithm::join_strings(pieces, pieces[I])};
+  std::list<std::string> const l(pieces.begin(), pieces.end());
+  std::string const b{fcppt::algorithm::join_strings(l, *std::next(l.begin(), static_cast<std::ptrdiff_t>(I)))};
+  return a == b ? show_str(a) : show_str(a) + "!=" + show_str(b);
+}
+
 std::string split_line(char const K, std::string const &s)
 {
   std::vector<std::string> pieces;
@@ -107,6 +135,28 @@ std::vector<std::string> all_strings(std::string const &alpha, ulong const len)
     r.push_back(s);
   }
   return r;
+}
+
+std::vector<std::vector<std::string>> piece_tuples(ulong const n)
+{
+  std::vector<std::string> choices;
+  for (ulong l = 0; l < 3; ++l)
+    for (auto const &s : all_strings("ab", l))
+      choices.push_back(s);
+  std::vector<std::vector<std::string>> tuples{{}};
+  for (ulong i = 0; i < n; ++i)
+  {
+    std::vector<std::vector<std::string>> next;
+    for (auto const &tu : tuples)
+      for (auto const &p : choices)
+      {
+        auto x{tu};
+        x.push_back(p);
+        next.push_back(std::move(x));
+      }
+    tuples = std::move(next);
+  }
+  return tuples;
 }
 
 // ---------------------------------------------------------------- maps, sets
@@ -207,6 +257,29 @@ std::string eval_m(std::string const &fn, std::vector<ulong> const &ps, ulong co
     }
     return b.empty() ? "-" : b;
   }
+  if ((fn == "getorinsat" || fn == "getorinsatv" || fn == "findmappedat" || fn == "containsat" || fn == "insertat") && ps.size() == 1)
+  {
+    // the key / value argument is a reference to (part of) the J-th entry of the map itself
+    ulong const J = ps[0];
+    if (J > 2) return bad;
+    if (J >= m.size()) return skip;
+    auto const it{std::next(m.begin(), static_cast<std::ptrdiff_t>(J))};
+    if (fn == "findmappedat")
+    {
+      auto const a{con::find_opt_mapped(m, it->first)};
+      return a.has_value() ? std::to_string(a.get_unsafe().get()) : "none";
+    }
+    if (fn == "containsat") return b01(con::contains(m, it->first));
+    if (fn == "insertat")
+    {
+      bool const r{con::insert(m, *it)};
+      return std::string{b01(r)} + "|" + encode_map(m);
+    }
+    int const &key{fn == "getorinsat" ? it->first : it->second};
+    seq calls;
+    auto const r{con::get_or_insert_with_result(m, key, [&calls](int const k) { calls.push_back(k); return (k + 1) % 3; })};
+    return std::to_string(r.element()) + "," + b01(r.inserted()) + "|" + encode_map(m) + "|" + ds(calls);
+  }
   if (fn == "keyset" && ps.empty())
     return ds(con::key_set<std::set<int>>(m));
   if (fn == "mapvals" && ps.empty())
@@ -253,6 +326,16 @@ std::string setop_line(std::string const &op, std::vector<long long> const &a, s
   if (op == "u") return nl(fcppt::container::set_union(sa, sa));
   if (op == "i") return nl(fcppt::container::set_intersection(sa, sa));
   if (op == "d") return nl(fcppt::container::set_difference(sa, sa));
+  if ((op == "n" || op == "c") && b.size() == 1)
+  {
+    // the value is a reference to the j-th element of the set itself
+    std::set<int> s2{sa};
+    if (b[0] < 0 || static_cast<std::size_t>(b[0]) >= s2.size()) return skip;
+    int const &x{*std::next(s2.begin(), static_cast<std::ptrdiff_t>(b[0]))};
+    if (op == "c") return b01(fcppt::container::contains(s2, x));
+    bool const r{fcppt::container::insert(s2, x)};
+    return std::string{b01(r)} + "|" + nl(s2);
+  }
   // container::insert / container::contains: the second list must be a single element
   if ((op == "N" || op == "C") && b.size() == 1)
   {
@@ -345,6 +428,44 @@ std::string handle(std::vector<std::string> const &t)
       h = vh::fnv(h, split_line(t[1][0], s));
     return "D " + vh::hex64(h);
   }
+  if (op == "splitat" && t.size() == 4)
+  {
+    auto const I{to_nat(t[2])};
+    if (!valid_str(t[3]) || !I || t[1].size() != 1 || (t[1][0] != 's' && t[1][0] != 'v')) return bad;
+    return split_at_line(t[1][0], *I, un(t[3]));
+  }
+  if (op == "dsplitat" && t.size() == 4)
+  {
+    auto const I{to_nat(t[2])};
+    auto const len{to_nat(t[3])};
+    if (!len || !I || *len > 9 || t[1].size() != 1 || (t[1][0] != 's' && t[1][0] != 'v')) return bad;
+    std::uint64_t h = vh::fnv_init;
+    for (auto const &s : all_strings("abc", *len))
+      h = vh::fnv(h, split_at_line(t[1][0], *I, s));
+    return "D " + vh::hex64(h);
+  }
+  if ((op == "joinstrat" || op == "djoinat") && t.size() >= 3)
+  {
+    auto const I{to_nat(t[1])};
+    auto const n{to_nat(t[2])};
+    if (!I || !n || *n > 6) return bad;
+    if (op == "joinstrat")
+    {
+      if (t.size() != 3 + *n) return bad;
+      std::vector<std::string> pieces;
+      for (std::size_t i = 3; i < t.size(); ++i)
+      {
+        if (!valid_str(t[i])) return bad;
+        pieces.push_back(un(t[i]));
+      }
+      return join_at_line(*I, pieces);
+    }
+    if (t.size() != 3 || *n > 4) return bad;
+    std::uint64_t h = vh::fnv_init;
+    for (auto const &tu : piece_tuples(*n))
+      h = vh::fnv(h, join_at_line(*I, tu));
+    return "D " + vh::hex64(h);
+  }
   if (op == "joinstr" && t.size() >= 3)
   {
     auto const n{to_nat(t[2])};
@@ -361,23 +482,7 @@ std::string handle(std::vector<std::string> const &t)
   {
     auto const n{to_nat(t[2])};
     if (!valid_str(t[1]) || !n || *n > 4) return bad;
-    std::vector<std::string> choices;
-    for (ulong l = 0; l < 3; ++l)
-      for (auto const &s : all_strings("ab", l))
-        choices.push_back(s);
-    std::vector<std::vector<std::string>> tuples{{}};
-    for (ulong i = 0; i < *n; ++i)
-    {
-      std::vector<std::vector<std::string>> next;
-      for (auto const &tu : tuples)
-        for (auto const &p : choices)
-        {
-          auto x{tu};
-          x.push_back(p);
-          next.push_back(std::move(x));
-        }
-      tuples = std::move(next);
-    }
+    auto const tuples{piece_tuples(*n)};
     std::uint64_t h = vh::fnv_init;
     for (auto const &tu : tuples)
       h = vh::fnv(h, join_line(un(t[1]), tu));
@@ -415,8 +520,8 @@ std::string handle(std::vector<std::string> const &t)
   }
   if (op == "dset" && t.size() == 2)
   {
-    if (t[1].size() != 1 || std::string{"UIDuidNC"}.find(t[1][0]) == std::string::npos) return bad;
-    bool const single = t[1] == "N" || t[1] == "C";
+    if (t[1].size() != 1 || std::string{"UIDuidNCnc"}.find(t[1][0]) == std::string::npos) return bad;
+    bool const single = t[1] == "N" || t[1] == "C" || t[1] == "n" || t[1] == "c";
     std::uint64_t h = vh::fnv_init;
     for (ulong n = 0; n < 64; ++n)
       h = vh::fnv(h, setop_line(t[1], mask_list(n / 8), single ? std::vector<long long>{static_cast<long long>(n % 4)} : mask_list(n % 8)));
